@@ -441,6 +441,25 @@ func checkCacheMergeFold(c *Ctx, rule string) {
 	storesExcerpt, storesCached, indexes, writes := false, false, false, false
 	var all []*ssa.Function
 	all = append(all, body)
+	// the folding of one result may live in a same-package helper called from the goroutine
+	isFoldStore := func(i ssa.Instruction) bool {
+		mu, ok := i.(*ssa.MapUpdate)
+		if !ok {
+			return false
+		}
+		_, fld, isF := loadOfField(mu.Map)
+		return isF && (fld == "excerpts" || fld == "cached")
+	}
+	foldHelpers := map[*ssa.Function]bool{}
+	for _, cl := range Calls(body) {
+		if viaHelper(w, cl.Instr, isFoldStore, false) {
+			if h := bodyOf(cl.Instr.Common().StaticCallee()); h != nil && !foldHelpers[h] {
+				foldHelpers[h] = true
+				all = append(all, h)
+				c.seeFn(funcName(h))
+			}
+		}
+	}
 	for _, f := range all {
 		for _, b := range f.Blocks {
 			for _, ins := range b.Instrs {
@@ -470,7 +489,11 @@ func checkCacheMergeFold(c *Ctx, rule string) {
 		}
 	}
 	// the folding is conditional on nothing but "no error" and the New/Updated status
-	for _, b := range body.Blocks {
+	var foldBlocks []*ssa.BasicBlock
+	for _, f := range all {
+		foldBlocks = append(foldBlocks, f.Blocks...)
+	}
+	for _, b := range foldBlocks {
 		for _, ins := range b.Instrs {
 			what := ""
 			switch x := ins.(type) {
@@ -481,6 +504,9 @@ func checkCacheMergeFold(c *Ctx, rule string) {
 			case ssa.CallInstruction:
 				if callReaches(x, func(n string) bool { return strings.HasSuffix(n, ".IndexOne") }, 0) {
 					what = "index"
+				}
+				if viaHelper(w, x, isFoldStore, false) {
+					what = "cached"
 				}
 			}
 			if what == "" {
